@@ -687,6 +687,7 @@ class Gen7:
         self.consts = []
         self.outer = ["dat", "tgt"]       # labels defined at top level (dat before the constructs, tgt after)
         self.imp_names = []
+        self.shadowing = set() # macros whose first parameter is named like the outer constant kk0
         self.leaks = []        # labels inside branches that are never selected (their conditions are forward references)
         self.late = False      # forward constants lateT = 1 / lateF = 0 are defined at the end of the program
 
@@ -769,7 +770,11 @@ class Gen7:
             return if_(self.cond(in_loop, params), self.body(d, in_loop, params, allow_label), self.body(d, in_loop, params, allow_label) if has_else else None)
         if x < 0.8 and self.macros:
             nm, k = r.choice(self.macros)
-            return macrocall(nm, [self.value(in_loop, params) for _ in range(k)])
+            args = [self.value(in_loop, params) for _ in range(k)]
+            if nm in self.shadowing and k >= 2:
+                # the first parameter is named like the outer constant kk0: a later argument that mentions kk0 denotes the parameter
+                args[1] = binop("+", ident(["kk0"]), num(1))
+            return macrocall(nm, args)
         b = self.body(d, in_loop, params, allow_label)
         if not in_loop:      # block symbols: backward to the start, forward to the end of this very block
             k = r.random()
@@ -794,6 +799,9 @@ class Gen7:
             nm = self.fresh("m")
             k = r.randrange(0, 3)
             ps = [self.fresh("p") for _ in range(k)]
+            if k >= 2 and r.random() < 0.5:
+                ps[0] = "kk0"
+                self.shadowing.add(nm)
             mbody = self.body(1, False, ps, True)
             (prog if r.random() < 0.7 else late_macros).append(macrodef(nm, ps, mbody))
             self.macros.append((nm, k))
